@@ -474,6 +474,28 @@ def props_report(prop_files):
     return dict(theorems=theorems, assumptions=assumptions, bad_axioms=bad, ok=ok and not bad, log='\n'.join(logs))
 
 
+def coqchk(prop_files, timeout=3000):
+    """Independent re-check (coqchk -o) of the compiled Props files and everything they depend on.
+    Cached by the hash of the .vo files involved. -> dict(ok, axioms_text, seconds, cached)"""
+    mods = ['FF.' + f[len('theories/'):-2].replace('/', '.') for f in prop_files]
+    vos = glob.glob(os.path.join(THEORIES, '**', '*.vo'), recursive=True)
+    key = hash_files(vos + [os.path.join(COQ, f) for f in prop_files])
+    d = ensure_dir(os.path.join(WORK, 'coqchk'))
+    cache = os.path.join(d, hashlib.sha256((key + ' '.join(mods)).encode()).hexdigest()[:24] + '.json')
+    if os.path.exists(cache):
+        r = json.load(open(cache))
+        r['cached'] = True
+        return r
+    with Lock('coqbuild'):
+        rc, out, secs = sh(['coqchk', '-silent', '-o', '-Q', 'theories', 'FF'] + mods, cwd=COQ, timeout=timeout)
+    m = re.search(r'CONTEXT SUMMARY.*', out, flags=re.S)
+    r = dict(ok=(rc == 0), summary=(m.group(0) if m else out[-2000:])[:4000], seconds=round(secs, 1), cached=False)
+    if rc == 0:
+        with open(cache, 'w') as f:
+            json.dump(r, f)
+    return r
+
+
 DRIVER_TAIL = r'''
 (* ---- generic driver appended by lib/vlib.py: reads "<id> hex hex ..." lines, prints "O <id> hex ..." ---- *)
 let n_of_hex (s : string) : n =
